@@ -286,3 +286,90 @@ Example C19_ex_callable_block :
     (ACallable (CBlock (Some ([TString], false, 1, 1)) None true (CNoBlock (Some ([TInt], false, 1, 1)) None))) = Ok [] /\
   casg rx0 eb (CBlock (Some ([TString], false, 1, 1)) None false (CNoBlock (Some ([TInt], false, 1, 1)) None)) = true.
 Proof. vm_compute. repeat split; reflexivity. Qed.
+
+(* ---- the walk over the expected type (Model/DescribeWalk.v): `describe` visits the whole expected type on
+   every error path looking for an unresolved reference (typemismatchdescriber.go:862, TypeAliasType.Accept
+   with a Guard that is never cleared).  Universe: ALL graphs of type aliases - `env` is the list of the
+   resolved types of the aliases, an alias is its index, so aliases may share members (fan-in), refer to
+   themselves and to each other; the only hypothesis is that every alias has a resolved type (`closed`).
+   Without the Guard remembering the aliases that are done, L_i = Struct[{left => L_(i+1), right => L_(i+1)}]
+   would be walked 2^n times; the theorems exclude that: below an alias every alias is visited at most once,
+   and the number of visits and the depth of the recursion are linear in the size of the graph (times the
+   number of aliases written in the expected type itself: describe passes a nil Guard, so each of those is
+   entered with a Guard of its own). ---- *)
+From PcoreV Require Model.DescribeWalk Proofs.DescribeWalkProofs.
+
+(* the walk ends, without a fault, within the linear fuel walk_fuel *)
+Theorem C19_walk_total :
+  forall (env : list DescribeWalk.aty) (t : DescribeWalk.aty),
+    DescribeWalk.closed_env env = true -> DescribeWalk.closed (length env) t = true ->
+    exists es, DescribeWalk.accept env t = DescribeWalk.WOk es.
+Proof. exact DescribeWalkProofs.accept_total. Qed.
+Print Assumptions C19_walk_total.
+
+(* an expected type that is an alias: every alias is visited at most once *)
+Theorem C19_walk_alias_once :
+  forall env i es, DescribeWalk.accept env (DescribeWalk.AAlias i) = DescribeWalk.WOk es ->
+    NoDup (DescribeWalk.aliases es) /\ (length (DescribeWalk.aliases es) <= length env)%nat.
+Proof. exact DescribeWalkProofs.accept_alias_once. Qed.
+Print Assumptions C19_walk_alias_once.
+
+(* any expected type: at most once for each alias that is written in the expected type itself *)
+Theorem C19_walk_alias_visits :
+  forall env t es, DescribeWalk.accept env t = DescribeWalk.WOk es ->
+    (length (DescribeWalk.aliases es) <= DescribeWalk.occ t * length env)%nat.
+Proof. exact DescribeWalkProofs.accept_alias_visits. Qed.
+Print Assumptions C19_walk_alias_visits.
+
+(* the number of visits is at most the size of the type plus, for each alias written in it, the sizes of the
+   resolved types (+1 each) *)
+Theorem C19_walk_visits_linear :
+  forall env t es, DescribeWalk.accept env t = DescribeWalk.WOk es ->
+    (length es <= DescribeWalk.visit_bound env t)%nat.
+Proof. exact DescribeWalkProofs.accept_visits_linear. Qed.
+Print Assumptions C19_walk_visits_linear.
+
+(* the first stage of describe (assignable? unresolved reference? internalDescribe) is total, says nothing for
+   an assignable pair, and reports an unresolved reference exactly when the pair is not assignable and the walk
+   meets one *)
+Theorem C19_describe_stage_total :
+  forall env e asg, DescribeWalk.closed_env env = true -> DescribeWalk.closed (length env) e = true ->
+    exists d, DescribeWalk.describe_stage env e asg = DescribeWalk.WOk d.
+Proof. exact DescribeWalkProofs.describe_stage_total. Qed.
+Print Assumptions C19_describe_stage_total.
+
+Theorem C19_describe_stage_unresolved :
+  forall env e asg n,
+    DescribeWalk.describe_stage env e asg = DescribeWalk.WOk (DescribeWalk.DUnresolved n) <->
+    asg = false /\ exists es, DescribeWalk.accept env e = DescribeWalk.WOk es /\ DescribeWalk.first_ref es = Some n.
+Proof. exact DescribeWalkProofs.describe_stage_unresolved. Qed.
+Print Assumptions C19_describe_stage_unresolved.
+
+(* 48 levels of aliases with fan-in 2 closed by Integer: 49 aliases, each visited once, 48 * 4 + 2 visits
+   (a walk that forgot the aliases it has finished would make 2^48 alias visits); below Struct[{a => L0, b => L0}]
+   the ladder is walked twice; a recursive alias Tree = Struct[{left => Optional[Tree], v => TypeReference['Foo']}]
+   is entered once and the reference is found *)
+Example C19_ex_walk_ladder :
+  let env := DescribeWalk.ladder 48 DescribeWalk.ALeaf in
+  let l0 := DescribeWalk.AAlias 0 in
+  DescribeWalk.closed_env env = true /\
+  match DescribeWalk.accept env l0 with
+  | DescribeWalk.WOk es => DescribeWalk.aliases es = seq 0 49 /\ length es = 194%nat
+  | _ => False
+  end /\
+  match DescribeWalk.accept env (DescribeWalk.a_struct [(DescribeWalk.a_key false, l0); (DescribeWalk.a_key false, l0)]) with
+  | DescribeWalk.WOk es => DescribeWalk.aliases es = seq 0 49 ++ seq 0 49 /\ length es = 391%nat
+  | _ => False
+  end /\
+  DescribeWalk.describe_stage env l0 false = DescribeWalk.WOk DescribeWalk.DInternal.
+Proof. vm_compute. repeat split; reflexivity. Qed.
+Example C19_ex_walk_recursive :
+  let tree := DescribeWalk.a_struct
+                [(DescribeWalk.a_key true, DescribeWalk.a_wrap (DescribeWalk.AAlias 0)); (DescribeWalk.a_key false, DescribeWalk.ARef sa)] in
+  DescribeWalk.accept [tree] (DescribeWalk.a_array (DescribeWalk.AAlias 0)) =
+    DescribeWalk.WOk [DescribeWalk.VOther; DescribeWalk.VOther; DescribeWalk.VAlias 0; DescribeWalk.VOther;
+                      DescribeWalk.VOther; DescribeWalk.VOther; DescribeWalk.VOther; DescribeWalk.VOther;
+                      DescribeWalk.VRef sa] /\
+  DescribeWalk.describe_stage [tree] (DescribeWalk.a_array (DescribeWalk.AAlias 0)) false =
+    DescribeWalk.WOk (DescribeWalk.DUnresolved sa).
+Proof. vm_compute. split; reflexivity. Qed.
